@@ -256,19 +256,27 @@ def string_shapes():
           ("Equals", ("StrSubstr", ("StrConcat", st, tt), L(1, INT), x), tt),
           # terms
           ("StrConcat", st, L("-", STRING), tt), ("StrLength", ("StrReplace", st, L("a", STRING), tt)), ("StrIndexOf", st, L("b", STRING), L(0, INT))]
+    # reals that differ by less than a double can tell (concrete models: 1, 10**30, 2**53, 1/3)
+    from fractions import Fraction as F
+    r = S("r", REAL)
+    tiny, one = L(F(1, 10**20), REAL), L(F(1), REAL)
+    sh += [("LT", r, ("Plus", r, tiny)), ("Equals", ("Plus", r, tiny), r), ("Minus", ("Plus", r, one), r), ("Plus", r, tiny),
+           ("LT", ("Times", r, L(F(3), REAL)), ("Plus", L(F(1), REAL), tiny)), ("Equals", ("Plus", r, one), ("Plus", one, r))]
     return [Shape(t) for t in sh]
 
 
 def _string_job(shape_t):
     shape = Shape(shape_t)
-    doms = {("STRING",): ["", "a", "ab", "12"], INT: [-1, 0, 1, 2]}
+    from fractions import Fraction as F
+    doms = {("STRING",): ["", "a", "ab", "12"], INT: [-1, 0, 1, 2], REAL: [F(1), F(10**30), F(2**53), F(1, 3)]}
 
     def call(w, it, f):
         import itertools as _it
         syms = sorted(w.free_symbols(f), key=lambda n: w.npayload(n)[0])
         out = []
         for combo in _it.product(*[doms[w.nsort(sy)] for sy in syms]):
-            asg = dict((sy, w.str_const(v) if isinstance(v, str) else w.int_const(v)) for sy, v in zip(syms, combo))
+            asg = dict((sy, w.str_const(v) if isinstance(v, str) else (w.int_const(v) if isinstance(v, int) else w.real_const(v)))
+                       for sy, v in zip(syms, combo))
             model = it.instantiate(ClassRef(EAGER), [asg, w.env], {})
             res = {}
             for api in ("get_value", "py", "satisfies"):
